@@ -1,33 +1,602 @@
+//! C10 — bulk operations equal their documented element-by-element definitions.
+use crate::util::*;
+use std::sync::atomic::{AtomicUsize, Ordering};
+use sux::bits::{AtomicBitFieldVec, AtomicBitVec, BitFieldVec, BitVec};
 use sux::prelude::*;
-use sux::bits::BitFieldVec;
+
+/// A third-party-style implementor that only provides the required methods of
+/// the slice traits, so that the trait-default `copy`, `set`, `mask`,
+/// `apply_in_place` and `apply_in_place_unchecked` are the code under test.
+pub struct Plain<W: Word, const N: usize>(pub BitFieldVec<W, [W; N]>);
+impl<W: Word, const N: usize> BitFieldSliceCore<W> for Plain<W, N> {
+    fn bit_width(&self) -> usize {
+        BitFieldSliceCore::<W>::bit_width(&self.0)
+    }
+    fn len(&self) -> usize {
+        BitFieldSliceCore::<W>::len(&self.0)
+    }
+}
+impl<W: Word, const N: usize> BitFieldSlice<W> for Plain<W, N> {
+    unsafe fn get_unchecked(&self, index: usize) -> W {
+        self.0.get_unchecked(index)
+    }
+}
+impl<W: Word, const N: usize> BitFieldSliceMut<W> for Plain<W, N> {
+    unsafe fn set_unchecked(&mut self, index: usize, value: W) {
+        self.0.set_unchecked(index, value)
+    }
+    fn reset(&mut self) {
+        self.0.reset()
+    }
+    type ChunksMut<'a>
+        = <BitFieldVec<W, [W; N]> as BitFieldSliceMut<W>>::ChunksMut<'a>
+    where
+        Self: 'a;
+    fn try_chunks_mut(&mut self, chunk_size: usize) -> Result<Self::ChunksMut<'_>, ()> {
+        self.0.try_chunks_mut(chunk_size)
+    }
+    fn as_mut_slice(&mut self) -> &mut [W] {
+        self.0.as_mut_slice()
+    }
+}
+
+macro_rules! c10_family {
+    ($W:ty, $N:expr, $NC:expr, $refget:ident, $APPLY_MAX:expr) => {
+        use super::super::*;
+        type W = $W;
+        const N: usize = $N;
+        const B: usize = <W>::BITS as usize;
+        type Arr = BitFieldVec<W, [W; N]>;
+        /// Words of each vector in the `copy` harnesses.
+        const NC: usize = $NC;
+        type ArrC = BitFieldVec<W, [W; NC]>;
+
+        fn wmask(w: usize) -> W {
+            if w == 0 {
+                0
+            } else {
+                <W>::MAX >> (B - w)
+            }
+        }
+
+        /// `copy` with a concrete width (wide word types: the symbolic-width
+        /// query does not finish in the quick budget): words, `from`, `to`,
+        /// `len` symbolic, vectors of possibly different lengths.
+        fn copy_cw(w: usize) {
+            let src: [W; N] = kani::any();
+            let dst: [W; N] = kani::any();
+            let n = N * B / w;
+            let ns: usize = kani::any();
+            let nd: usize = kani::any();
+            kani::assume(ns <= n && nd <= n);
+            let s = unsafe { Arr::from_raw_parts(src, w, ns) };
+            let mut d = unsafe { Arr::from_raw_parts(dst, w, nd) };
+            let from: usize = kani::any();
+            let to: usize = kani::any();
+            let len: usize = kani::any();
+            kani::assume(from <= ns && to <= nd);
+            s.copy(from, &mut d, to, len);
+            let eff = len.min(ns - from).min(nd - to);
+            let q: usize = kani::any();
+            kani::assume(q < nd);
+            if q >= to && q < to + eff {
+                assert_eq!(d.get(q), $refget(&src, w, from + q - to));
+            } else {
+                assert_eq!(d.get(q), $refget(&dst, w, q));
+            }
+            if eff > 0 {
+                let bl = eff * w;
+                let (sp, dp) = (from * w, to * w);
+                let s1 = sp / B == (sp + bl - 1) / B;
+                let d1 = dp / B == (dp + bl - 1) / B;
+                kani::cover!(w == B || (!s1 && !d1 && sp % B < dp % B), "copy: multiword src_bit < dst_bit");
+                kani::cover!(w == B || (!s1 && !d1 && sp % B > dp % B), "copy: multiword src_bit > dst_bit");
+                kani::cover!(!s1 && !d1 && sp % B == dp % B, "copy: multiword aligned");
+            }
+        }
+        #[kani::proof]
+        #[kani::unwind(6)]
+        pub fn copy_w5() {
+            copy_cw(5);
+        }
+        #[kani::proof]
+        #[kani::unwind(6)]
+        pub fn copy_wm1() {
+            copy_cw(B - 1);
+        }
+        #[kani::proof]
+        #[kani::unwind(6)]
+        pub fn copy_wfull() {
+            copy_cw(B);
+        }
+
+        /// `apply_in_place`: `f` is called exactly `len` times, in index
+        /// order, on the current values, and each result is stored; the
+        /// backend may have spare words.
+        #[kani::proof]
+        #[kani::unwind(10)]
+        pub fn apply_in_place() {
+            const K: usize = $APPLY_MAX;
+            let words: [W; N] = kani::any();
+            let w: usize = kani::any();
+            kani::assume(w >= 1 && w <= B);
+            let len: usize = kani::any();
+            kani::assume(len <= K && len * w <= N * B);
+            let mut v = unsafe { Arr::from_raw_parts(words, w, len) };
+            let table: [W; K] = kani::any();
+            let mut seen: [W; K] = [0; K];
+            let mut calls = 0usize;
+            v.apply_in_place(|x| {
+                assert!(calls < K);
+                seen[calls] = x;
+                let r = table[calls] & wmask(w);
+                calls += 1;
+                r
+            });
+            assert_eq!(calls, len);
+            let q: usize = kani::any();
+            kani::assume(q < len);
+            assert_eq!(seen[q], $refget(&words, w, q));
+            assert_eq!(v.get(q), table[q] & wmask(w));
+            kani::cover!(len == K && !w.is_power_of_two(), "general path, full length");
+            kani::cover!(len > 1 && w.is_power_of_two() && w < B, "power-of-two path");
+            kani::cover!(len > 0 && (len * w).div_ceil(B) < N, "spare trailing words");
+            kani::cover!(len > 0 && w == B, "full width");
+        }
+
+        /// Trait-default `apply_in_place` on a plain implementor.
+        #[kani::proof]
+        #[kani::unwind(6)]
+        pub fn apply_default() {
+            const K: usize = 3;
+            let words: [W; N] = kani::any();
+            let w: usize = kani::any();
+            kani::assume(w >= 1 && w <= B);
+            let len: usize = kani::any();
+            kani::assume(len <= K && len * w <= N * B);
+            let mut v = Plain(unsafe { Arr::from_raw_parts(words, w, len) });
+            let table: [W; K] = kani::any();
+            let mut seen: [W; K] = [0; K];
+            let mut calls = 0usize;
+            v.apply_in_place(|x| {
+                assert!(calls < K);
+                seen[calls] = x;
+                let r = table[calls] & wmask(w);
+                calls += 1;
+                r
+            });
+            assert_eq!(calls, len);
+            let q: usize = kani::any();
+            kani::assume(q < len);
+            assert_eq!(seen[q], $refget(&words, w, q));
+            assert_eq!(v.0.get(q), table[q] & wmask(w));
+            kani::cover!(len == K);
+        }
+
+        /// `apply_in_place` with a function whose result does not fit must
+        /// not return normally.
+        #[kani::proof]
+        #[kani::unwind(10)]
+        #[kani::should_panic]
+        pub fn reject_apply_value() {
+            let words: [W; N] = kani::any();
+            let w: usize = kani::any();
+            kani::assume(w >= 1 && w < B);
+            let len: usize = kani::any();
+            kani::assume(len >= 1 && len <= 2 && len * w <= N * B);
+            let mut v = unsafe { Arr::from_raw_parts(words, w, len) };
+            let bad: W = kani::any();
+            kani::assume(bad & wmask(w) != bad);
+            v.apply_in_place(|_| bad);
+            kani::cover!(true, "returned normally");
+        }
+
+        /// `reset`: every element reads zero afterwards.
+        #[kani::proof]
+        #[kani::unwind(6)]
+        pub fn reset() {
+            let words: [W; N] = kani::any();
+            let w: usize = kani::any();
+            kani::assume(w <= B);
+            let len: usize = kani::any();
+            kani::assume(len <= 2 * N * B && len * w <= N * B);
+            let mut v = unsafe { Arr::from_raw_parts(words, w, len) };
+            v.reset();
+            let q: usize = kani::any();
+            kani::assume(q < len);
+            assert_eq!(v.get(q), 0);
+            assert_eq!(v.len(), len);
+            kani::cover!(len > 0 && (len * w) % B != 0, "partial last word");
+            kani::cover!(len > 0 && w > 0 && (len * w) % B == 0, "whole words");
+        }
+
+        /// `try_chunks_mut`: `Err` exactly when documented; chunk `c` element
+        /// `i` is element `c * chunk_size + i` of the parent, for reads and
+        /// writes, and chunk lengths follow `len`.
+        #[kani::proof]
+        #[kani::unwind(6)]
+        pub fn chunks() {
+            let words: [W; N] = kani::any();
+            let w: usize = kani::any();
+            kani::assume(w >= 1 && w <= B);
+            let len: usize = kani::any();
+            kani::assume(len >= 1 && len <= N * B && len * w <= N * B);
+            let mut v = unsafe { Arr::from_raw_parts(words, w, len) };
+            let cs: usize = kani::any();
+            kani::assume(cs >= 1 && cs <= len + 1);
+            let should_ok = len <= cs || (cs * w) % B == 0;
+            let x: W = kani::any();
+            kani::assume(x & wmask(w) == x);
+            let c: usize = kani::any();
+            kani::assume(c < 3);
+            let i: usize = kani::any();
+            let mut wrote: Option<usize> = None;
+            match v.try_chunks_mut(cs) {
+                Err(()) => assert!(!should_ok),
+                Ok(mut it) => {
+                    assert!(should_ok);
+                    let mut k = 0;
+                    while k < 3 {
+                        let ch = it.next();
+                        let exp_len = if k * cs >= len { 0 } else { cs.min(len - k * cs) };
+                        match ch {
+                            None => assert!(exp_len == 0),
+                            Some(mut ch) => {
+                                assert_eq!(BitFieldSliceCore::<W>::len(&ch), exp_len);
+                                if k == c && i < exp_len {
+                                    assert_eq!(ch.get(i), $refget(&words, w, k * cs + i));
+                                    ch.set(i, x);
+                                    wrote = Some(k * cs + i);
+                                }
+                            }
+                        }
+                        k += 1;
+                    }
+                }
+            }
+            if let Some(p) = wrote {
+                assert_eq!(v.get(p), x);
+                let q: usize = kani::any();
+                kani::assume(q < len && q != p);
+                assert_eq!(v.get(q), $refget(&words, w, q));
+            }
+            kani::cover!(wrote.is_some() && c == 1, "wrote through the second chunk");
+            kani::cover!(!should_ok, "documented error case");
+        }
+
+        /// `get_unaligned(i) == get(i)` whenever the documented
+        /// preconditions hold (admissible width, one padding word).
+        #[kani::proof]
+        #[kani::unwind(6)]
+        pub fn unaligned() {
+            let words: [W; N] = kani::any();
+            let w: usize = kani::any();
+            kani::assume(w <= B);
+            kani::assume(w + 6 <= B || w + 4 == B || w == B);
+            let len: usize = kani::any();
+            // an additional padding word at the end of the vector
+            kani::assume(len <= 2 * N * B && (len * w).div_ceil(B) + 1 <= N);
+            let v = unsafe { Arr::from_raw_parts(words, w, len) };
+            let i: usize = kani::any();
+            kani::assume(i < len);
+            assert_eq!(v.get_unaligned(i), $refget(&words, w, i));
+            kani::cover!(B < 16 || (w > 1 && (i * w) % B + w > B), "straddling element");
+            kani::cover!((i * w) / B >= 1, "element beyond the first word");
+        }
+
+        /// `get_unaligned` with an inadmissible width or index must not return.
+        #[kani::proof]
+        #[kani::unwind(6)]
+        #[kani::should_panic]
+        pub fn reject_unaligned() {
+            let words: [W; N] = kani::any();
+            let w: usize = kani::any();
+            kani::assume(w <= B);
+            let len: usize = kani::any();
+            kani::assume(len <= 2 * N * B && len * w <= N * B);
+            let v = unsafe { Arr::from_raw_parts(words, w, len) };
+            let i: usize = kani::any();
+            kani::assume(!(w + 6 <= B || w + 4 == B || w == B) || i >= len);
+            let _ = v.get_unaligned(i);
+            kani::cover!(true, "returned normally");
+        }
+    };
+}
+
+macro_rules! c10_copy_sym {
+    ($refget:ident) => {
+        /// `copy`: all words of source and destination, the width, `from`,
+        /// `to` and `len` symbolic; a symbolic probe index reads either the
+        /// copied source element or the old destination element.
+        #[kani::proof]
+        #[kani::unwind(6)]
+        pub fn copy() {
+            let src: [W; NC] = kani::any();
+            let dst: [W; NC] = kani::any();
+            let w: usize = kani::any();
+            kani::assume(w >= 1 && w <= B);
+            let n = NC * B / w;
+            let s = unsafe { ArrC::from_raw_parts(src, w, n) };
+            let mut d = unsafe { ArrC::from_raw_parts(dst, w, n) };
+            let from: usize = kani::any();
+            let to: usize = kani::any();
+            let len: usize = kani::any();
+            kani::assume(from < n && to < n && len <= n);
+            s.copy(from, &mut d, to, len);
+            let eff = len.min(n - from).min(n - to);
+            let q: usize = kani::any();
+            kani::assume(q < n);
+            if q >= to && q < to + eff {
+                assert_eq!(d.get(q), $refget(&src, w, from + q - to));
+            } else {
+                assert_eq!(d.get(q), $refget(&dst, w, q));
+            }
+            // the six branches of the implementation
+            if eff > 0 {
+                let bl = eff * w;
+                let (sp, dp) = (from * w, to * w);
+                let s1 = sp / B == (sp + bl - 1) / B;
+                let d1 = dp / B == (dp + bl - 1) / B;
+                kani::cover!(s1 && d1, "copy: both spans in one word");
+                kani::cover!(s1 && !d1, "copy: source in one word");
+                kani::cover!(!s1 && d1, "copy: destination in one word");
+                kani::cover!(!s1 && !d1 && sp % B == dp % B, "copy: multiword aligned");
+                kani::cover!(!s1 && !d1 && sp % B < dp % B, "copy: multiword src_bit < dst_bit");
+                kani::cover!(!s1 && !d1 && sp % B > dp % B, "copy: multiword src_bit > dst_bit");
+            }
+        }
+
+        /// `copy` between vectors of different lengths (source shorter than
+        /// the destination and vice versa), clipping included.
+        #[kani::proof]
+        #[kani::unwind(6)]
+        pub fn copy_lengths() {
+            let src: [W; NC] = kani::any();
+            let dst: [W; NC] = kani::any();
+            let w: usize = kani::any();
+            kani::assume(w >= 1 && w <= B);
+            let n = NC * B / w;
+            let ns: usize = kani::any();
+            let nd: usize = kani::any();
+            kani::assume(ns <= n && nd <= n);
+            let s = unsafe { ArrC::from_raw_parts(src, w, ns) };
+            let mut d = unsafe { ArrC::from_raw_parts(dst, w, nd) };
+            let from: usize = kani::any();
+            let to: usize = kani::any();
+            let len: usize = kani::any();
+            kani::assume(from <= ns && to <= nd);
+            s.copy(from, &mut d, to, len);
+            let eff = len.min(ns - from).min(nd - to);
+            let q: usize = kani::any();
+            kani::assume(q < nd);
+            if q >= to && q < to + eff {
+                assert_eq!(d.get(q), $refget(&src, w, from + q - to));
+            } else {
+                assert_eq!(d.get(q), $refget(&dst, w, q));
+            }
+            assert_eq!(d.len(), nd);
+            kani::cover!(eff > 2 && eff < len, "clipped copy");
+            kani::cover!(from == ns || to == nd, "copy starting at the end");
+        }
+
+        /// Trait-default `copy` (element loop) on a plain implementor.
+        #[kani::proof]
+        #[kani::unwind(5)]
+        pub fn copy_default() {
+            let src: [W; NC] = kani::any();
+            let dst: [W; NC] = kani::any();
+            let w: usize = kani::any();
+            kani::assume(w >= 1 && w <= B);
+            let n = NC * B / w;
+            let s = Plain(unsafe { ArrC::from_raw_parts(src, w, n) });
+            let mut d = Plain(unsafe { ArrC::from_raw_parts(dst, w, n) });
+            let from: usize = kani::any();
+            let to: usize = kani::any();
+            let len: usize = kani::any();
+            kani::assume(from < n && to < n && len <= 3);
+            s.copy(from, &mut d, to, len);
+            let eff = len.min(n - from).min(n - to);
+            let q: usize = kani::any();
+            kani::assume(q < n);
+            if q >= to && q < to + eff {
+                assert_eq!(d.0.get(q), $refget(&src, w, from + q - to));
+            } else {
+                assert_eq!(d.0.get(q), $refget(&dst, w, q));
+            }
+            kani::cover!(eff == 3);
+        }
+
+    };
+}
+
+macro_rules! c10_atomic {
+    ($A:ty, $refget:ident) => {
+        /// `reset_atomic`: every element reads zero afterwards.
+        #[kani::proof]
+        #[kani::unwind(6)]
+        pub fn reset_atomic() {
+            let words: [W; N] = kani::any();
+            let w: usize = kani::any();
+            kani::assume(w <= B);
+            let len: usize = kani::any();
+            kani::assume(len <= 2 * N * B && len * w <= N * B);
+            let aw: [$A; N] = core::array::from_fn(|k| <$A>::new(words[k]));
+            let mut v = unsafe { AtomicBitFieldVec::<W, [$A; N]>::from_raw_parts(aw, w, len) };
+            v.reset_atomic(Ordering::Relaxed);
+            let q: usize = kani::any();
+            kani::assume(q < len);
+            assert_eq!(v.get_atomic(q, Ordering::Relaxed), 0);
+            kani::cover!(len > 0 && (len * w) % B != 0, "partial last word");
+        }
+    };
+}
 
 pub mod q {
+    pub mod u8_ {
+        c10_family!(u8, 4, 4, ref_get_u8, 8);
+        c10_copy_sym!(ref_get_u8);
+        c10_atomic!(std::sync::atomic::AtomicU8, ref_get_u8);
+    }
+    pub mod usize_ {
+        c10_family!(usize, 3, 2, ref_get_usize, 4);
+        c10_atomic!(std::sync::atomic::AtomicUsize, ref_get_usize);
+    }
+    pub mod u32_unaligned {
+        //! `get_unaligned` for a word type that is not 8 bytes wide.
+        use super::super::*;
+        #[kani::proof]
+        #[kani::unwind(6)]
+        pub fn unaligned() {
+            const N: usize = 3;
+            const B: usize = 32;
+            let words: [u32; N] = kani::any();
+            let w: usize = kani::any();
+            kani::assume(w <= B);
+            kani::assume(w + 6 <= B || w + 4 == B || w == B);
+            let len: usize = kani::any();
+            kani::assume(len <= 2 * N * B && (len * w).div_ceil(B) + 1 <= N);
+            let v = unsafe { BitFieldVec::<u32, [u32; N]>::from_raw_parts(words, w, len) };
+            let i: usize = kani::any();
+            kani::assume(i < len);
+            assert_eq!(v.get_unaligned(i), ref_get_u32(&words, w, i));
+            kani::cover!(w > 1 && (i * w) % B + w > B, "straddling element");
+            kani::cover!((i * w) / B >= 1, "element beyond the first word");
+        }
+    }
+
     use super::*;
+    const NB: usize = 3;
+
+    fn any_bv() -> ([usize; NB], usize) {
+        let words: [usize; NB] = kani::any();
+        let len: usize = kani::any();
+        kani::assume(len <= 64 * NB);
+        (words, len)
+    }
+
+    /// `BitVec::fill` / `reset`: every bit below `len` reads the value.
+    #[kani::proof]
+    #[kani::unwind(5)]
+    pub fn bitvec_fill_reset() {
+        let (words, len) = any_bv();
+        let mut v = unsafe { BitVec::from_raw_parts(words, len) };
+        let val: bool = kani::any();
+        v.fill(val);
+        let q: usize = kani::any();
+        kani::assume(q < len);
+        assert_eq!(v.get(q), val);
+        v.reset();
+        assert_eq!(v.get(q), false);
+        assert_eq!(v.len(), len);
+        kani::cover!(len % 64 != 0 && len > 64, "partial last word");
+    }
+
+    /// `BitVec::flip`: every bit below `len` is negated.
+    #[kani::proof]
+    #[kani::unwind(5)]
+    pub fn bitvec_flip() {
+        let (words, len) = any_bv();
+        let mut v = unsafe { BitVec::from_raw_parts(words, len) };
+        v.flip();
+        let q: usize = kani::any();
+        kani::assume(q < len);
+        assert_eq!(v.get(q), !bit(&words, q));
+        kani::cover!(len % 64 != 0 && len > 64, "partial last word");
+    }
+
+    /// `AtomicBitVec::{fill,reset,flip}` single-threaded.
+    #[kani::proof]
+    #[kani::unwind(5)]
+    pub fn atomic_bitvec_fill_flip() {
+        let (words, len) = any_bv();
+        let aw: [AtomicUsize; NB] = core::array::from_fn(|k| AtomicUsize::new(words[k]));
+        let mut v = unsafe { AtomicBitVec::from_raw_parts(aw, len) };
+        let q: usize = kani::any();
+        kani::assume(q < len);
+        v.flip(Ordering::Relaxed);
+        assert_eq!(v.get(q, Ordering::Relaxed), !bit(&words, q));
+        let val: bool = kani::any();
+        v.fill(val, Ordering::Relaxed);
+        assert_eq!(v.get(q, Ordering::Relaxed), val);
+        v.reset(Ordering::Relaxed);
+        assert_eq!(v.get(q, Ordering::Relaxed), false);
+        kani::cover!(len % 64 != 0 && len > 64, "partial last word");
+    }
+
+    /// `count_ones` on clean and dirty storage agree (relational part of the
+    /// split of DESIGN.md §1.2; the residual family is in C06).
+    #[kani::proof]
+    #[kani::unwind(5)]
+    pub fn bitvec_count_relational() {
+        let (words, len) = any_bv();
+        let mut clean = words;
+        let mut k = 0;
+        while k < NB {
+            if 64 * k >= len {
+                clean[k] = 0;
+            } else if len - 64 * k < 64 {
+                clean[k] &= lowmask(len - 64 * k);
+            }
+            k += 1;
+        }
+        let a = unsafe { BitVec::from_raw_parts(words, len) };
+        let b = unsafe { BitVec::from_raw_parts(clean, len) };
+        assert_eq!(a.count_ones(), b.count_ones());
+        assert_eq!(a.count_zeros(), len - a.count_ones());
+        kani::cover!(len % 64 != 0 && len > 64, "partial last word");
+    }
+
+    /// Blanket slice implementation of `copy` / `reset` on `[W]`.
+    /// (`u8` elements: Kani 0.68 under-copies `copy_nonoverlapping` with a
+    /// symbolic element count for wider element types -- a modelling defect
+    /// found because its counter-example did not replay; see DESIGN.md.)
     #[kani::proof]
     #[kani::unwind(6)]
-    pub fn copy_u8() {
-        const B: usize = 8;
+    pub fn slice_copy_reset() {
         let src: [u8; 4] = kani::any();
-        let dst: [u8; 4] = kani::any();
-        let w: usize = kani::any();
-        kani::assume(w >= 1 && w <= B);
-        let n = 4 * B / w;
-        let s = unsafe { BitFieldVec::<u8, [u8; 4]>::from_raw_parts(src, w, n) };
-        let mut d = unsafe { BitFieldVec::<u8, [u8; 4]>::from_raw_parts(dst, w, n) };
-        let d0 = unsafe { BitFieldVec::<u8, [u8; 4]>::from_raw_parts(dst, w, n) };
+        let mut dst: [u8; 4] = kani::any();
+        let d0 = dst;
         let from: usize = kani::any();
         let to: usize = kani::any();
         let len: usize = kani::any();
-        kani::assume(from < n && to < n && len <= n);
-        s.copy(from, &mut d, to, len);
-        let eff = len.min(n - from).min(n - to);
+        kani::assume(from <= 4 && to <= 4);
+        BitFieldSliceMut::<u8>::copy(&src, from, &mut dst, to, len);
+        let eff = len.min(4 - from).min(4 - to);
         let q: usize = kani::any();
-        kani::assume(q < n);
+        kani::assume(q < 4);
         if q >= to && q < to + eff {
-            assert_eq!(d.get(q), s.get(from + q - to));
+            assert_eq!(dst[q], src[from + q - to]);
         } else {
-            assert_eq!(d.get(q), d0.get(q));
+            assert_eq!(dst[q], d0[q]);
         }
-        kani::cover!(true);
+        BitFieldSliceMut::<u8>::reset(&mut dst);
+        assert_eq!(dst[q], 0);
+        kani::cover!(eff == 2);
+    }
+}
+
+#[cfg(feature = "c10_t")]
+pub mod t {
+    pub mod u16_ {
+        c10_family!(u16, 4, 4, ref_get_u16, 8);
+        c10_copy_sym!(ref_get_u16);
+        c10_atomic!(std::sync::atomic::AtomicU16, ref_get_u16);
+    }
+    pub mod u32_ {
+        c10_family!(u32, 3, 2, ref_get_u32, 6);
+        c10_copy_sym!(ref_get_u32);
+        c10_atomic!(std::sync::atomic::AtomicU32, ref_get_u32);
+    }
+    pub mod u64_ {
+        c10_family!(u64, 3, 3, ref_get_u64, 4);
+        c10_atomic!(std::sync::atomic::AtomicU64, ref_get_u64);
+    }
+    pub mod u128_ {
+        c10_family!(u128, 3, 3, ref_get_u128, 4);
+    }
+    pub mod usize_sym {
+        //! symbolic-width `copy` over two 64-bit words per vector.
+        c10_family!(usize, 3, 2, ref_get_usize, 4);
+        c10_copy_sym!(ref_get_usize);
     }
 }
